@@ -1,6 +1,7 @@
 """C02 — one step is the Runge-Kutta update: table layout agreement between writers and readers,
 stage-argument formulas by polynomial normal form, propagated increment, Newton-acceptance typestate."""
 import ast
+from fractions import Fraction
 
 from .. import extract, tab
 from ..flow import Engine, Client, tri_eval
@@ -30,6 +31,7 @@ def run(repo, run, tier):
     stage_args(repo, run)
     increment(repo, run)
     newton(repo, run)
+    splitting_clock(repo, run)
 
 
 # ------------------------------------------------------------------------------------------------
@@ -354,8 +356,8 @@ def _ci(node):
 
 
 # ------------------------------------------------------------------------------------------------
-def increment(repo, run):
-    rid = run.rule("C02.3", "propagated increment: dState = h * sum(stage_values * tableau_final[0, 1:]) over the stage axis, the FSAL "
+def increment(repo, run, rule_id="C02.3"):
+    rid = run.rule(rule_id, "propagated increment: dState = h * sum(stage_values * tableau_final[0, 1:]) over the stage axis, the FSAL "
                             "shortcut only under is_fsal and is_explicit, solved stages are the ones summed, dTime = h", floor=6)
     step = repo.get(ITY, extract.RK + ".step")
     run.analysed_fn(ITY, step)
@@ -366,7 +368,7 @@ def increment(repo, run):
     ok = row == 0
     run.judged(rid, "propagated row = %d" % row, ok=ok)
     if not ok:
-        run.report("C02.3", ITY, st_assign, "the step advances with row %d of tableau_final; row 0 holds the method's weights b (row 1 the "
+        run.report(rule_id, ITY, st_assign, "the step advances with row %d of tableau_final; row 0 holds the method's weights b (row 1 the "
                                             "embedded/error weights)" % row)
     got = canon.poly(st_assign.value)
     want = [T("h * sum(self.stage_values * self.tableau_final[%d, 1:], axis=-1)" % row),
@@ -374,7 +376,7 @@ def increment(repo, run):
     ok = got in want
     run.judged(rid, "increment formula: %s" % got.canon(), ok=ok)
     if not ok:
-        run.report("C02.3", ITY, st_assign, "increment is %s, the Runge-Kutta update is %s" % (got.canon(), want[0].canon()))
+        run.report(rule_id, ITY, st_assign, "increment is %s, the Runge-Kutta update is %s" % (got.canon(), want[0].canon()))
     # all stores to self.dState in step
     stores = [st for st in walk_no_nested(step) if isinstance(st, ast.Assign) and any(is_self_attr(t, "dState") for t in st.targets)]
     # compute_step result binding
@@ -394,7 +396,7 @@ def increment(repo, run):
                                                                                        "self.tableau_intermediate"]
     run.judged(rid, "compute_step called with (rhs, t0, y0, h, stages, stages, tableau_intermediate, constants)", ok=okargs)
     if not okargs:
-        run.report("C02.3", ITY, cs_assign.value, "compute_step is not called with (rhs, t0, y0, h, self.stage_values, self.stage_values, "
+        run.report(rule_id, ITY, cs_assign.value, "compute_step is not called with (rhs, t0, y0, h, self.stage_values, self.stage_values, "
                                                   "self.tableau_intermediate, constants) in that order")
     for st in stores:
         if st is st_assign:
@@ -406,18 +408,18 @@ def increment(repo, run):
             okf = extract.executes_iff_fsal_explicit(st, step)
             run.judged(rid, "FSAL shortcut guard: %s" % (src(iff.test) if isinstance(iff, ast.If) else "<none>"), ok=okf)
             if not okf:
-                run.report("C02.3", ITY, st, "the last explicit-stage increment is used as the step's increment outside `is_fsal and is_explicit`: "
+                run.report(rule_id, ITY, st, "the last explicit-stage increment is used as the step's increment outside `is_fsal and is_explicit`: "
                                              "for an implicit table that is the explicit predictor, not the solved stages")
         else:
             run.judged(rid, "other dState store: %s" % src(st), ok=False)
-            run.report("C02.3", ITY, st, "self.dState is assigned from something that is neither the weighted stage sum nor the FSAL stage increment")
+            run.report(rule_id, ITY, st, "self.dState is assigned from something that is neither the weighted stage sum nor the FSAL stage increment")
     # the FSAL increment handed back by compute_step is the last stage's h*sum(...)
     cfn = repo.get(RKM, "compute_step")
     rets = [s for s in cfn.body if isinstance(s, ast.Return)]
     okret = len(rets) == 1 and isinstance(rets[0].value, ast.Tuple) and len(rets[0].value.elts) == 3
     run.judged(rid, "compute_step returns (stages, last stage increment, last stage slope)", ok=okret)
     if not okret:
-        run.report("C02.3", RKM, cfn, "compute_step no longer returns the 3-tuple (stages, increment, slope) that step() unpacks", text="compute_step return shape")
+        run.report(rule_id, RKM, cfn, "compute_step no longer returns the 3-tuple (stages, increment, slope) that step() unpacks", text="compute_step return shape")
     # solved stages replace the guess
     oksolved = False
     for st in walk_no_nested(step):
@@ -433,7 +435,7 @@ def increment(repo, run):
                             oksolved = True
     run.judged(rid, "solved stage values are stored back into self.stage_values", ok=oksolved)
     if not oksolved:
-        run.report("C02.3", ITY, step, "the root returned by the nonlinear solver is not stored into self.stage_values before the weighted sum",
+        run.report(rule_id, ITY, step, "the root returned by the nonlinear solver is not stored into self.stage_values before the weighted sum",
                    text="solved stages store")
     # dTime
     okdt = False
@@ -446,7 +448,7 @@ def increment(repo, run):
             dtst = st
     run.judged(rid, "dTime = h", ok=okdt)
     if not okdt:
-        run.report("C02.3", ITY, step, "the recorded step length self.dTime is not the step the stages were computed with", text="dTime store in step")
+        run.report(rule_id, ITY, step, "the recorded step length self.dTime is not the step the stages were computed with", text="dTime store in step")
 
 
 # ------------------------------------------------------------------------------------------------
@@ -604,3 +606,137 @@ def newton(repo, run, rule_id="C02.4"):
     if not fail:
         run.report(rule_id, ITY, call, "no path raises FailedToMeetTolerances: exhausting the retries falls through to the return",
                    text="missing raise after retry loop")
+
+
+# ------------------------------------------------------------------------------------------------
+def splitting_clock(repo, run):
+    """'For splitting methods the step is the stated composition of drift and kick sub-steps': sub-step s evaluates the right-hand side at the time reached by the
+    drift sub-steps BEFORE it, t0 + h*sum_{r<s} d_r, and at the state y0 + (increments of the sub-steps before it).  The loop body of
+    ExplicitSymplecticIntegrator.step is executed symbolically for the first three stages (polynomials in t0, h, the table entries and one fresh symbol per
+    right-hand-side value) and the arguments of each evaluation are compared with that specification."""
+    from ..sym import Poly
+    rid = run.rule("C02.5", "splitting step, by symbolic execution of the stage loop for stages 0..2: stage s evaluates rhs at time t0 + h*sum_{r<s} T[r,drift] and at state "
+                            "y0 + sum_{r<s} h*F_r*(T[r,drift]*drift_mask + T[r,kick]*kick_mask)", floor=6)
+    fn = repo.get(ITY, extract.SPLIT + ".step")
+    run.analysed_fn(ITY, fn)
+    dcol, kcol, upd, _ = extract.splitting_columns(repo)
+    P = [a.arg for a in fn.args.args]
+    if len(P) != 6:
+        raise AnalysisError("ExplicitSymplecticIntegrator.step signature changed: %s" % P)
+    roles = dict(zip(P[1:], ["rhs", "t0", "y0", "consts", "h"]))
+    loops = [st for st in fn.body if isinstance(st, ast.For)]
+    if len(loops) != 1 or not isinstance(loops[0].target, ast.Name):
+        raise AnalysisError("ExplicitSymplecticIntegrator.step: stage loop not found")
+    loop = loops[0]
+    svar = loop.target.id
+    env = {}
+    calls = []
+
+    class Unsupported(Exception):
+        pass
+
+    def ev(n, s):
+        if isinstance(n, ast.Constant) and isinstance(n.value, (int, float)) and not isinstance(n.value, bool):
+            return Poly.const(Fraction(repr(n.value)) if isinstance(n.value, float) else n.value)
+        if isinstance(n, ast.Name):
+            if n.id == svar:
+                return Poly.const(s)
+            if n.id in env:
+                return env[n.id]
+            return Poly.atom(roles.get(n.id, n.id))
+        if isinstance(n, ast.Attribute) and is_self_attr(n):
+            key = "self." + n.attr
+            return env.get(key, Poly.atom(key))
+        if isinstance(n, ast.Subscript) and is_self_attr(n.value, "tableau_intermediate") and isinstance(n.slice, ast.Tuple) and len(n.slice.elts) == 2:
+            i, j = ev(n.slice.elts[0], s), ev(n.slice.elts[1], s)
+            if not (i.is_const() and j.is_const()):
+                raise Unsupported(src(n))
+            return Poly.atom("T[%d,%d]" % (int(i.const_value()), int(j.const_value())))
+        if isinstance(n, ast.BinOp) and isinstance(n.op, (ast.Add, ast.Sub, ast.Mult)):
+            a, b = ev(n.left, s), ev(n.right, s)
+            return a + b if isinstance(n.op, ast.Add) else (a - b if isinstance(n.op, ast.Sub) else a * b)
+        if isinstance(n, ast.UnaryOp) and isinstance(n.op, ast.USub):
+            return -ev(n.operand, s)
+        if isinstance(n, ast.Call):
+            f = fname(n)
+            if isinstance(n.func, ast.Name) and roles.get(n.func.id) == "rhs":
+                if len(n.args) < 2:
+                    raise Unsupported(src(n))
+                k = len(calls)
+                calls.append((s, n, ev(n.args[0], s), ev(n.args[1], s)))
+                return Poly.atom("F%d" % s) if not any(c_[0] == s for c_ in calls[:-1]) else Poly.atom("F%d_%d" % (s, k))
+            if f in ("copy", "asarray", "array") and n.args:
+                return ev(n.args[0], s)
+        # anything else is an opaque value: harmless unless it reaches an argument of the right-hand side (then the rule cannot decide)
+        return Poly.atom("?" + src(n)[:60])
+
+    def run_block(stmts, s):
+        for st in stmts:
+            if isinstance(st, ast.If):
+                t = st.test
+                if isinstance(t, ast.Compare) and len(t.ops) == 1:
+                    l, r = ev(t.left, s), ev(t.comparators[0], s)
+                    if l.is_const() and r.is_const():
+                        import operator
+                        opf = {ast.Eq: operator.eq, ast.NotEq: operator.ne, ast.Lt: operator.lt, ast.LtE: operator.le, ast.Gt: operator.gt, ast.GtE: operator.ge}.get(type(t.ops[0]))
+                        if opf is not None:
+                            run_block(st.body if opf(l.const_value(), r.const_value()) else st.orelse, s)
+                            continue
+                raise Unsupported("branch on `%s`" % src(t)[:50])
+            elif isinstance(st, ast.Assign) and len(st.targets) == 1:
+                v = ev(st.value, s)
+                t = st.targets[0]
+                if isinstance(t, ast.Name):
+                    env[t.id] = v
+                elif is_self_attr(t):
+                    env["self." + t.attr] = v
+                else:
+                    raise Unsupported(src(t))
+            elif isinstance(st, ast.AugAssign) and isinstance(st.op, (ast.Add, ast.Sub, ast.Mult)):
+                t = st.target
+                key = t.id if isinstance(t, ast.Name) else ("self." + t.attr if is_self_attr(t) else None)
+                if key is None:
+                    raise Unsupported(src(t))
+                cur = env.get(key, Poly.atom(roles.get(key, key)))
+                v = ev(st.value, s)
+                env[key] = cur + v if isinstance(st.op, ast.Add) else (cur - v if isinstance(st.op, ast.Sub) else cur * v)
+            elif isinstance(st, (ast.Expr, ast.Pass)):
+                if isinstance(st, ast.Expr):
+                    ev(st.value, s)
+            else:
+                raise Unsupported(type(st).__name__)
+    try:
+        pre = fn.body[:fn.body.index(loop)]
+        run_block([st for st in pre if not (isinstance(st, ast.Expr) and isinstance(st.value, ast.Constant))], 0)
+        for s in (0, 1, 2):
+            run_block(loop.body, s)
+    except Unsupported as e:
+        raise AnalysisError("ExplicitSymplecticIntegrator.step: construct outside the symbolic executor: %s" % e)
+    t0, y0, h = Poly.atom("t0"), Poly.atom("y0"), Poly.atom("h")
+    want_t, want_y = t0, y0
+    per_stage = {}
+    for (s, node, gt, gy) in calls:
+        per_stage.setdefault(s, []).append((node, gt, gy))
+    for s in (0, 1, 2):
+        if len(per_stage.get(s, [])) != 1:
+            run.judged(rid, "stage %d: exactly one right-hand-side evaluation (%d found)" % (s, len(per_stage.get(s, []))), ok=False)
+            run.report("C02.5", ITY, loop, "sub-step %d of the splitting step evaluates the right-hand side %d times (exactly once is the stated composition)" % (s, len(per_stage.get(s, []))),
+                       text="rhs evaluations per splitting stage")
+            return
+        node, gt, gy = per_stage[s][0]
+        if any(a_.startswith("?") for p_ in (gt, gy) for a_ in p_.atoms()):
+            raise AnalysisError("ExplicitSymplecticIntegrator.step: a value the symbolic executor cannot follow reaches the right-hand side's arguments: %s / %s" % (
+                gt.canon()[:80], gy.canon()[:80]))
+        okt = gt == want_t
+        run.judged(rid, "stage %d time argument: %s" % (s, gt.canon()), ok=okt)
+        if not okt:
+            run.report("C02.5", ITY, node.args[0], "sub-step %d evaluates the right-hand side at time %s; the composition evaluates it at %s (the time reached by the drift "
+                                                   "sub-steps before it): for a right-hand side whose drift part depends on t the step is not the stated composition" % (
+                                                       s, gt.canon(), want_t.canon()))
+        oky = gy == want_y
+        run.judged(rid, "stage %d state argument: %s" % (s, gy.canon()), ok=oky)
+        if not oky:
+            run.report("C02.5", ITY, node.args[1], "sub-step %d evaluates the right-hand side at state %s; the composition evaluates it at %s" % (s, gy.canon(), want_y.canon()))
+        F = Poly.atom("F%d" % s)
+        want_t = want_t + h * Poly.atom("T[%d,%d]" % (s, dcol))
+        want_y = want_y + h * F * (Poly.atom("T[%d,%d]" % (s, dcol)) * Poly.atom("self.drift_mask") + Poly.atom("T[%d,%d]" % (s, kcol)) * Poly.atom("self.kick_mask"))
